@@ -1150,6 +1150,18 @@ def _expand_module_aliases(tree):
                 root = root.value
             if stores.get(root.id, 0) <= 1:          # the module the alias points into is itself bound once (an import)
                 aliases[n.targets[0].id] = n.value
+    # `from numpy import frombuffer, uint32 as np_uint32` / `from collections import Counter as C` / `import time` + time.sleep:
+    # names imported from numpy are read as np.<name>; an imported name under another name is read as the original
+    for n in tree.body:
+        if isinstance(n, ast.ImportFrom) and n.level == 0:
+            for a in n.names:
+                local = a.asname or a.name
+                if stores.get(local, 0) != 1 or a.name == "*":
+                    continue
+                if n.module == "numpy":
+                    aliases[local] = ast.Attribute(value=ast.Name(id="np", ctx=ast.Load()), attr=a.name, ctx=ast.Load())
+                elif a.asname and a.asname != a.name and stores.get(a.name, 0) == 0:
+                    aliases[local] = ast.Name(id=a.name, ctx=ast.Load())
     if not aliases:
         return 0
     count = [0]
@@ -1796,6 +1808,17 @@ def canonicalise_anchor_functions(trees):
         for role, cs in cands.items():
             if not have("countmin", role) and len(cs) == 1 and cs[0] != role:
                 ren[("countmin", cs[0])] = role
+    if "heavyhitters" in trees and not have("heavyhitters", "_max_count"):
+        # the reader kernel: the one kernel HeavyHitters.__getitem__ calls
+        fs = funcs("heavyhitters")
+        ks = {n for n, f in fs.items() if _is_njit(f)}
+        for cl in trees["heavyhitters"].body:
+            if isinstance(cl, ast.ClassDef) and cl.name == "HeavyHitters":
+                for m_ in cl.body:
+                    if isinstance(m_, ast.FunctionDef) and m_.name == "__getitem__":
+                        called = {c.func.id for c in ast.walk(m_) if isinstance(c, ast.Call) and isinstance(c.func, ast.Name) and c.func.id in ks}
+                        if len(called) == 1:
+                            ren[("heavyhitters", next(iter(called)))] = "_max_count"
     if not ren:
         return {}
     for (short, old), new in ren.items():
